@@ -494,9 +494,11 @@ def strategies():
             vals2 = {nm: draw(val(c)) for nm, c in fields}
         # the classic readable-name collision: a='x b=y', b='z'  vs  a='x', b='y b=z'
         if n >= 2 and fcodes[0] in ("str", "ostr") and fcodes[1] in ("str", "ostr") and draw(st.integers(0, 3)) == 0:
-            vals1["a"], vals1["b"] = {"t": "str", "v": "x b=y"}, {"t": "str", "v": "z"}
+            # ... also with the quote characters a renderer might wrap strings in
+            q = draw(st.sampled_from(["", "", "'", '"', "\\'"]))
+            vals1["a"], vals1["b"] = {"t": "str", "v": "x%s b=%sy" % (q, q)}, {"t": "str", "v": "z"}
             vals2 = json.loads(json.dumps(vals1))
-            vals2["a"], vals2["b"] = {"t": "str", "v": "x"}, {"t": "str", "v": "y b=z"}
+            vals2["a"], vals2["b"] = {"t": "str", "v": "x"}, {"t": "str", "v": "y%s b=%sz" % (q, q)}
         if draw(st.integers(0, 11)) == 0:
             strs_r = st.sampled_from(["", "x", "x y", "a=1", "None"])
             return {"pattern": "recursive", "fields": [["n", "int"], ["s", "str"]], "vals1": {}, "vals2": {},
